@@ -111,4 +111,17 @@ theorem translated_copy_is_the_model (W P N : Nat) (buf : ByteArray) (s : String
       PStr.copyFromStr W buf s = buf.extract 0 W ++ v ++ buf.extract (W + PStr.recLen W buf) buf.size :=
   GenP.copy_from_str_eq W P N buf s hw
 
+/-- The accessors through the translator: `Deref`, `DerefMut` and `as_str` of the prefixed strings hand out the payload
+    bytes as they are — no check, no copy (`DerefMut` leaves them in place) — so in every state reachable through the safe
+    API what they hand out is valid UTF-8 by `prefix_str_valid`; `PodStr::as_str_unchecked` (unsafe, outside the
+    property) is the unvalidated text, and `PodStr::default()` is all zero, whose text is empty. -/
+theorem translated_accessors_hand_out_the_payload (W P N : Nat) (hP : P < 256 ^ W) (b : ByteArray) (h : Safe W P b) :
+    GenP.deref W P N (PStr.payload W b) = some (PStr.payload W b) ∧
+    GenP.as_str W P N (PStr.payload W b) = some (PStr.payload W b) ∧
+    GenP.deref_mut W P N (PStr.payload W b) = some (PStr.payload W b, PStr.payload W b) ∧
+    (PStr.payload W b).IsValidUTF8 ∧
+    (∀ v : ByteArray, v.size = N → GenS.as_str_unchecked W P N v = some (PodStr.text v)) ∧
+    GenS.default_value W P N = some (zerosBA N) :=
+  ⟨rfl, rfl, rfl, (prefix_str_valid W P hP b h).1, fun v hv => GenS.as_str_unchecked_eq W P N v hv, rfl⟩
+
 end Stevia.C11
